@@ -160,6 +160,9 @@ def format_context(format_str):
     # new format: now double braces instead of single ones.
     # but the algorithm may be left unchanged.
     format_str = format_str.replace("{{", "{").replace("}}", "}")
+    if format_str.rfind('{') > format_str.rfind('}'):
+        # the last opening brace is never closed, as in "}}{{"
+        raise LenaValueError("unbalanced braces: the last '{{' is not closed")
     new_str = []
     new_args = []
     prev_char = ''
